@@ -119,6 +119,9 @@ def main(tier):
             arm = pr.get(tv)
             oka = arm is not None and [x[0] for x in arm[1][0]] == ["next"] and arm[1][1][0] == "ok"
             run.ob(oka, "no-hook|%s|%s" % (ev, s_), "C12 constants and @ neither start nor continue an implicit product", where(m, "::parser::Parser::parse_number"), "%r arm: %s" % (s_, show_summary(arm[1])[:160] if arm else None))
+        # premise: generate_ast(level) parses at exactly the level it is given (the climbing schema of C04)
+        okg, whyg = m.generate_ast_shape()
+        run.ob(okg, "climb|%s" % ev, "C12 premise: generate_ast(level) climbs from exactly the level it is given (so the right factor's extent does not depend on the enclosing operator)", where(m, "::parser::Parser::generate_ast"), whyg)
         # callers of implicit_multiply (call graph)
         edges, _, _ = F.callgraph()
         callers = sorted(g.short for g in F.fns if f.path in edges.get(g.path, ()) and g.evaluator == ev)
